@@ -1,6 +1,8 @@
 (* PIPELINE — the end-to-end composition: source bytes -> printed values (theories/Pipeline.v).
-   Statements only; proofs in proofs/Pipeline*.v.  Not a property of properties.jsonl: C07 cites
-   (a), C10 cites (b), C01 / C04 cite (d), C06 cites (e).
+   Statements only; proofs in proofs/Pipeline{Proofs,Resolve,Erase,Resolvable,Compose,Parens,Numbers}.v.
+   Not a property of properties.jsonl: C07 cites (a), C10 cites (b) and (c), C01 / C04 cite (d),
+   C06 cites (e), C09 cites (f).  Every theorem is for ALL source texts (resp. all valid UTF-8 texts,
+   all token lists and layouts); none is partial.
 
      front src       = Lexer.lex -> Parser.parse_program -> Parser.to_lang NumParse.to_number
                        -> StaticRules.check            (both source variants read off the code)
@@ -11,7 +13,9 @@
    The model is tied to the code by lib/props/pipeline.py: SOURCE TEXT goes to the real pipeline
    (`nsverif lang`, configuration nn) and to the extracted run_source / run_source_impl, which lex
    and parse the text themselves; acceptance, rejecting phase, diagnostics, named tree, resolved
-   ids (up to a bijection), printed values and ending must coincide. *)
+   ids (up to a bijection), printed values and ending must coincide; the real `naija` binary must
+   exit with success exactly on the texts the model accepts and runs to a normal ending, and print
+   what Lang.display says. *)
 From Coq Require Import ZArith List Bool Arith.
 Require Import NS.theories.Utf8 NS.theories.GenLexer NS.theories.Lexer NS.theories.GenParser NS.theories.Parser.
 Require Import NS.theories.Layout NS.theories.Pipeline.
@@ -19,7 +23,7 @@ Require NS.theories.F64 NS.theories.Lang NS.theories.Spec NS.theories.NumParse N
         NS.theories.LexResolve NS.proofs.NumParseProofs.
 Require Import NS.theories.RulesWf.
 Require Import NS.proofs.ParserTheorems NS.proofs.ScopeProofs NS.proofs.PipelineProofs NS.proofs.PipelineResolve
-               NS.proofs.PipelineErase NS.proofs.PipelineResolvable NS.proofs.PipelineCompose NS.proofs.PipelineParens.
+               NS.proofs.PipelineErase NS.proofs.PipelineResolvable NS.proofs.PipelineCompose NS.proofs.PipelineParens NS.proofs.PipelineNumbers.
 Require NS.theories.Pratt NS.proofs.ParserPratt.
 Import ListNotations.
 Open Scope nat_scope.
@@ -256,13 +260,26 @@ Theorem PIPELINE_accepted_never_panics_dead_sites : forall eps fuel src o s,
 Proof. exact accepted_never_panics_dead_sites_lemma. Qed.
 Print Assumptions PIPELINE_accepted_never_panics_dead_sites.
 
+(* ================================================================== the fuel is a bound, not an input
+   (LangFuel.run_impl_fuel_mono, end to end) *)
+Theorem PIPELINE_run_source_impl_fuel_mono : forall eps n m src o e,
+  n <= m -> run_source_impl eps n src = Ran o e -> e <> Lang.EFuel -> run_source_impl eps m src = Ran o e.
+Proof. exact run_source_impl_fuel_mono. Qed.
+Print Assumptions PIPELINE_run_source_impl_fuel_mono.
+
+Theorem PIPELINE_rejection_independent_of_fuel : forall eps1 n1 eps2 n2 src ph r,
+  run_source eps1 n1 src = Rejected ph r ->
+  run_source eps2 n2 src = Rejected ph r /\ run_source_impl eps2 n2 src = Rejected ph r.
+Proof. exact rejection_independent_of_fuel. Qed.
+Print Assumptions PIPELINE_rejection_independent_of_fuel.
+
 (* ================================================================== number literals
    The tree keeps the literal text; resolver and runtime call `text.parse::<f64>()` on it; the model
    reads it with NumParse.to_number (C13).  On every text of the shape of a Number token (digits,
    or digits '.' digits) to_number is inside dec2flt's decimal grammar: never the NaN fallback,
    the value is the correctly rounded decimal (NumParseProofs.to_number_decimal / round_q_interval).
-   That the lexer model hands out only such payloads is immediate for C10's token descriptors and
-   is checked on every token of every run of the correspondence (`numlit`); that rustc's
+   That the lexer model hands out only such payloads is proved below for every valid UTF-8 text
+   (and re-checked on every token of every run of the correspondence: `numlit`); that rustc's
    parse::<f64> is correctly rounded is C13's differential plus the AST comparison of this check
    (the implementation prints the bits of text.parse::<f64>() for every literal). *)
 Theorem PIPELINE_number_literal_parses : forall p, number_literal p = true ->
@@ -270,6 +287,19 @@ Theorem PIPELINE_number_literal_parses : forall p, number_literal p = true ->
     num_of_text p = NumParseProofs.exact_round false (NumParse.digits_val 0 ds) e.
 Proof. exact number_literal_parses. Qed.
 Print Assumptions PIPELINE_number_literal_parses.
+
+(* for every valid UTF-8 text, every Number token of the lexer model is such a text: the bytes
+   between the token start and the end of its digits are digits or digits '.' digits (the bad-dot
+   recovery replaces the token by the next one; an alphabetic suffix is cut off and reported) *)
+Theorem PIPELINE_lexer_numbers_are_literals : forall s, valid_utf8 s = true -> forall toks ds fin,
+  lex Lexer.variant_of_source s = Ok (toks, ds, fin) -> Forall (fun t => tok_number_ok t = true) toks.
+Proof. exact lexer_numbers_are_literals. Qed.
+Print Assumptions PIPELINE_lexer_numbers_are_literals.
+
+Theorem PIPELINE_front_numbers_are_literals : forall s d, valid_utf8 s = true -> front s = Front d ->
+  Forall (fun t => tok_number_ok t = true) (fd_tokens d).
+Proof. exact front_numbers_are_literals. Qed.
+Print Assumptions PIPELINE_front_numbers_are_literals.
 
 Theorem PIPELINE_rendered_numbers_are_literals : forall t, tk_ok t = true ->
   match t with KNumber _ _ => number_literal (snd (fst (tk_tok t))) = true | _ => True end.
